@@ -122,10 +122,11 @@ pub fn code_append(push_state: &mut PushState, _instruction_cache: &InstructionC
 /// or a literal, and FALSE otherwise (that is, if it is something surrounded by parentheses).
 pub fn code_item(push_state: &mut PushState, _instruction_cache: &InstructionCache) {
     // Equality only checks type and ignores value
-    push_state.bool_stack.push(
-        push_state.code_stack.last_eq(&Item::int(0))
-            || push_state.code_stack.last_eq(&Item::noop()),
-    );
+    if push_state.code_stack.size() > 0 {
+        push_state
+            .bool_stack
+            .push(!push_state.code_stack.last_eq(&Item::empty_list()));
+    }
 }
 
 /// CODE.CAR: Pushes the first item of the list on top of the CODE stack. For example, if the top
